@@ -187,6 +187,19 @@ Section Field.
     Definition res_bp (c : coef) (f : nat) : F := fsub (facep_of c f) (lin c (fcen I f)).
   End Inst.
 
+  (* ---- the local systems as the code assembled them (certificate (ii)) ----
+     LA = the matrix of all local equations before row scaling (grad_eqs of
+     _flux_discretization: flux rows, then pressure rows; one column per component of a
+     sub-cell gradient, nd consecutive columns per sub-cell); the right-hand side of row r
+     for cell pressures p and face data bdata is (RC p + RB bdata)_r, with RC = rhs_cells
+     and RB = rhs_bound folded to faces; they are stored in the FL / BF slots of an inst
+     (whose geometry is the grid the code works on, i.e. after map_grid in 2-D). *)
+  Definition comp3 (v : vec3) (i : nat) : F :=
+    let '(x, y, z) := v in match i with 0 => x | 1 => y | _ => z end.
+  Definition gstar (c : coef) (nd col : nat) : F := comp3 (snd c) (col mod nd).
+  Definition res_local (I : inst) (LA : coo) (nd : nat) (c : coef) (r : nat) : F :=
+    fsub (row_apply LA r (gstar c nd)) (flux_of I c r).
+
   (* the basis fields 1, x, y, z *)
   Definition e0 : coef := (f1, (f0, f0, f0)).
   Definition e1 : coef := (f0, (f1, f0, f0)).
@@ -263,6 +276,14 @@ Definition bp_cert (I : inst dyad) : bool :=
                             (seq 0 (nf I)))
           [0; 1; 2; 3]%nat.
 
+(* certificate (ii): on every row of the captured local systems the constant gradient of
+   each basis field reproduces the right-hand side the code builds from that field *)
+Definition local_cert (I : inst dyad) (LA : coo dyad) (nd nrows : nat) : bool :=
+  forallb (fun i => forallb (fun r => dwithin (res_local dyad DO I LA nd (de i) r)
+                                              (flux_of dyad DO I (de i) r))
+                            (seq 0 nrows))
+          [0; 1; 2; 3]%nat.
+
 (* hypotheses of the property on the instance: K symmetric positive definite (Sylvester) *)
 Definition spd_b (K : mat3 Q) : bool :=
   let '((a, b, c), (d, e, f), (g, h, i)) := K in
@@ -333,6 +354,16 @@ Definition check_case (nfaces nbnd : Z) (I : inst dyad) : bool :=
   (Z.of_nat (nf I) =? nfaces)%Z
   && (Z.of_nat (length (filter (is_bnd I) (seq 0 (nf I)))) =? nbnd)%Z
   && spd_b (dym (perm I)) && flux_cert I && bp_cert I && cross_check I.
+
+(* second kind of case: the captured local systems of the same run.  I carries the mapped
+   geometry, RC and RB (in the FL / BF slots); LA the local equations; at least one row. *)
+Definition check_local (nd nrows nnzA : Z) (I : inst dyad) (la : list Z) : bool :=
+  let LA := of_dcoo la in
+  (0 <? nrows)%Z && (Z.of_nat (length la) =? nnzA)%Z
+  && forallb (fun t : nat * nat * dyad => (fst (fst t) <? Z.to_nat nrows)%nat
+                                          && (snd (fst t) <? Z.to_nat nrows)%nat) LA
+  && spd_b (dym (perm I))
+  && local_cert I LA (Z.to_nat nd) (Z.to_nat nrows).
 
 (* diagnostics: the largest residuals *)
 Definition qmax (l : list Q) : Q :=
